@@ -1,4 +1,5 @@
 import GoPlugin.Props.C09
+import GoPlugin.Props.C06
 import GoPlugin.Props.C08
 import GoPlugin.Generated.Facts
 /- C09 (MuxBroker part) at the facts extracted from the current source. -/
@@ -36,5 +37,12 @@ theorem holds_mux_dial_can_always_begin (r : GrpcMux.Role) (s : GrpcMux.State) (
 
 theorem holds_gone_peer_dial_returns (callerBlocks : Bool) : GrpcBroker.gonePeerDialReturns Facts.grpcDial callerBlocks = true :=
   Props.C09.gone_peer_dial_returns _ (by decide) callerBlocks
+
+theorem holds_send_after_stream_end_returns : GrpcBroker.sendAfterEndReturns Facts.grpcStreamer = true :=
+  Props.C09.send_after_stream_end_returns _ (by decide)
+
+/-- net/rpc broker: an `Accept` that timed out has released the mutex (C06's fact about the timer arm) -/
+theorem holds_accept_timeout_releases_lock (nothingParked : Bool) : MuxBroker.timeoutReleasesLock Facts.muxAccept nothingParked = true :=
+  (Props.C06.accept_bookkeeping _ (by decide) nothingParked 0 0).1
 
 end GoPlugin.Instance.C09
